@@ -13,17 +13,18 @@ INF = math.inf
 
 class V:
     """abstract integer/pointer value"""
-    __slots__ = ('lo', 'hi', 'lt', 'le', 'eop', 'rd', 'nn', 'tag')
+    __slots__ = ('lo', 'hi', 'lt', 'le', 'eop', 'rd', 'nn', 'tag', 'ne')
 
-    def __init__(self, lo=-INF, hi=INF, lt=frozenset(), le=frozenset(), eop=None, rd=0, nn=None, tag=None):
+    def __init__(self, lo=-INF, hi=INF, lt=frozenset(), le=frozenset(), eop=None, rd=0, nn=None, tag=None, ne=frozenset()):
         self.lo, self.hi, self.lt, self.le = lo, hi, lt, le
+        self.ne = ne        # interior constants the value is known not to equal
         self.eop = eop      # value this location holds iff the read hit end-of-packet (None: not a read)
         self.rd = rd        # read sequence number
         self.nn = nn        # pointer nullness: True non-null, False null, None unknown
         self.tag = tag      # client tag (ownership/provenance), joined by equality
 
     def copy(self, **kw):
-        v = V(self.lo, self.hi, self.lt, self.le, self.eop, self.rd, self.nn, self.tag)
+        v = V(self.lo, self.hi, self.lt, self.le, self.eop, self.rd, self.nn, self.tag, self.ne)
         for k, x in kw.items():
             setattr(v, k, x)
         return v
@@ -35,8 +36,8 @@ class V:
         return self.lo if self.lo == self.hi and self.lo not in (INF, -INF) else None
 
     def __eq__(self, o):
-        return isinstance(o, V) and (self.lo, self.hi, self.lt, self.le, self.eop, self.nn, self.tag) == \
-            (o.lo, o.hi, o.lt, o.le, o.eop, o.nn, o.tag)
+        return isinstance(o, V) and (self.lo, self.hi, self.lt, self.le, self.eop, self.nn, self.tag, self.ne) == \
+            (o.lo, o.hi, o.lt, o.le, o.eop, o.nn, o.tag, o.ne)
 
     def __hash__(self):
         return hash((self.lo, self.hi))
@@ -109,8 +110,9 @@ def join(a, b, la=None, lb=None):
                                         (b.eop if a.eop is None else None))
     if a.eop is not None and b.eop is not None and a.eop != b.eop:
         eop = None
+    ne = frozenset(c for c in (a.ne | b.ne) if (c in a.ne or not (a.lo <= c <= a.hi)) and (c in b.ne or not (b.lo <= c <= b.hi)))
     return V(min(a.lo, b.lo), max(a.hi, b.hi), lt, le, eop, max(a.rd, b.rd),
-             a.nn if a.nn == b.nn else None, a.tag if a.tag == b.tag else None)
+             a.nn if a.nn == b.nn else None, a.tag if a.tag == b.tag else None, ne)
 
 
 def widen(old, new, thresholds):
@@ -173,6 +175,8 @@ class Hooks:
     """client hooks; every attribute may stay None"""
     on_node = None          # (A, env, eid, value): after every evaluated node, all passes
     on_call = None          # (A, env, eid, argvalues) -> V or None
+    post_call = None        # (A, env, eid, result V) -> V or None
+    on_edge = None          # (A, env, cond eid, truth): after refinement along a branch edge
     on_store = None         # (A, env, eid, key, value) -> V or None
     on_entry = None         # (A, env) -> env
     after_elem = None
@@ -531,14 +535,9 @@ class Analyzer:
         if k == 'cast':
             v = self.ev(env, c[0])
             r = int_type_range(nd.get('t', ''))
-            if r and (v.lo < r[0] or v.hi > r[1]):
-                # conversion may wrap
-                if nd.get('ck') in ('IntegralCast',):
-                    return V(r[0], r[1])
-                return meet_range(v, r[0], r[1])
             if nd.get('ck') in ('FloatingToIntegral',):
                 return V(*(r or (-INF, INF)))
-            return v
+            return self.convert(v, r)
         if k == 'un':
             op = nd['op']
             if op == '&':
@@ -585,11 +584,7 @@ class Analyzer:
                 # evaluate sub-expressions of the target (index expressions may have effects)
                 self._ev_lvalue_children(env, c[0])
             lt = self.ex[c[0]].get('t', '')
-            r = int_type_range(lt)
-            if r and (rhs.lo < r[0] or rhs.hi > r[1]):
-                rhs = V(r[0], r[1]) if (rhs.lo < r[0] - 2 ** 62 or rhs.hi > r[1] + 2 ** 62 or True) and \
-                    (rhs.lo == -INF or rhs.hi == INF or rhs.lo < r[0] or rhs.hi > r[1]) and not (rhs.lo >= r[0] and rhs.hi <= r[1]) \
-                    else rhs
+            rhs = self.convert(rhs, int_type_range(lt))
             key = self.path(c[0], env)
             if self.hooks and self.hooks.on_store:
                 rhs = self.hooks.on_store(self, env, e, key, rhs) or rhs
@@ -630,9 +625,7 @@ class Analyzer:
                         self.ev(env, v['init'])
                         continue
                     iv = self.ev(env, v['init'])
-                    r = int_type_range(v['t'])
-                    if r and (iv.lo < r[0] or iv.hi > r[1]):
-                        iv = V(r[0], r[1])
+                    iv = self.convert(iv, int_type_range(v['t']))
                     if self.hooks and self.hooks.on_store:
                         iv = self.hooks.on_store(self, env, e, key, iv) or iv
                     self.store(env, key, iv)
@@ -654,6 +647,21 @@ class Analyzer:
             if x:
                 self.ev(env, x)
         return TOP
+
+    @staticmethod
+    def convert(v, r):
+        """integer conversion to a type with range r.  An unbounded side is clipped to the type (the value was never
+        known to exceed it); a finite bound outside the range means the conversion may wrap: whole type range."""
+        if not r or v.is_bottom():
+            return v
+        lo_out = v.lo < r[0]
+        hi_out = v.hi > r[1]
+        if not lo_out and not hi_out:
+            return v
+        lim = (-INF, INF, -2 ** 63, 2 ** 63 - 1, 2 ** 64 - 1, -2 ** 31, 2 ** 31 - 1, 2 ** 32 - 1)
+        if (lo_out and v.lo not in lim) or (hi_out and v.hi not in lim):
+            return V(r[0], r[1], nn=v.nn, tag=v.tag)
+        return meet_range(v, r[0], r[1])
 
     def _ev_lvalue_children(self, env, e):
         nd = self.ex[e]
@@ -816,6 +824,13 @@ class Analyzer:
             r = self.hooks.on_call(self, env, e, avals)
             if r is not None:
                 return r
+        r = self._call_default(env, e, args, avals)
+        if self.hooks and self.hooks.post_call:
+            r = self.hooks.post_call(self, env, e, r) or r
+        return r
+
+    def _call_default(self, env, e, args, avals):
+        nd = self.ex[e]
         name = nd['callee'].get('d')
         r = self.lib_call(env, e, name, args, avals)
         if r is not None:
@@ -974,11 +989,7 @@ class Analyzer:
         if k == 'int':
             return K(nd['v'])
         if k == 'cast':
-            v = self.peek(env, nd['c'][0])
-            r = int_type_range(nd.get('t', ''))
-            if r and (v.lo < r[0] or v.hi > r[1]):
-                return V(r[0], r[1])
-            return v
+            return self.convert(self.peek(env, nd['c'][0]), int_type_range(nd.get('t', '')))
         if k == 'assign':
             return self.peek(env, nd['c'][0])
         if k in ('ref', 'member', 'sub') or (k == 'un' and nd['op'] == '*'):
@@ -1035,14 +1046,19 @@ class Analyzer:
         elif op == '==':
             lo, hi = max(lo, w.lo), min(hi, w.hi)
             lt, le = lt | w.lt, le | w.le | ({wsym} if wsym else set())
-        elif op == '!=':
+        ne = v.ne
+        if op == '!=':
             c = w.const()
             if c is not None:
                 if lo == c:
                     lo += 1
-                if hi == c:
+                elif hi == c:
                     hi -= 1
-        nv = v.copy(lo=lo, hi=hi, lt=frozenset(lt), le=frozenset(le) - frozenset(lt))
+                elif lo < c < hi and len(ne) < 6:
+                    ne = ne | {c}
+        elif op == '==' and w.const() is not None and w.const() in v.ne:
+            lo, hi = 1, 0
+        nv = v.copy(lo=lo, hi=hi, lt=frozenset(lt), le=frozenset(le) - frozenset(lt), ne=frozenset(x for x in ne if lo <= x <= hi))
         if v.nn is None and op == '!=' and w.const() == 0:
             nv.nn = True
         if op == '==' and w.const() == 0 and v.nn is None:
@@ -1355,6 +1371,8 @@ class Analyzer:
                     e2 = self.refine(env.copy(), cond, truth)
                     if e2 is None:
                         continue
+                    if self.hooks and self.hooks.on_edge:
+                        self.hooks.on_edge(self, e2, cond, truth)
                     self._emit(outs, s, e2, keep_tmp=(kind in ('cond', 'and', 'or')), cond=cond)
             elif kind == 'switch' and cond is not None:
                 v = self.peek(env, cond)
